@@ -55,6 +55,8 @@ def recheck(name, checks):
     finally:
         sh("git reset -q --hard HEAD; git clean -fdq", "/repo")
         restore_evidence(ev)
+        # the regenerated tables follow /repo: bring them back to the clean tree
+        sh("python3 -c 'import sys; sys.path.insert(0, \"lib\"); import vf; vf.run_translator()'", "/verif")
     json.dump(meta, open(dst + "/meta.json", "w"), indent=1)
     return 0
 
@@ -128,6 +130,7 @@ def main():
         finally:
             sh("git reset -q --hard HEAD; git clean -fdq", "/repo")
             restore_evidence(ev)
+            sh("python3 -c 'import sys; sys.path.insert(0, \"lib\"); import vf; vf.run_translator()'", "/verif")
     json.dump(meta, open(dst + "/meta.json", "w"), indent=1)
     return 0
 sys.exit(main())
